@@ -194,7 +194,9 @@ func c12MakeRef() {
 	for _, cf := range corpus() {
 		simrt.Load((&Tape{}).config())
 		simrt.SeamsOn(true, false)
-		r := parseVia(cf.Name, cf.Text, "string", nil, "ref")
+		var r *parseResult
+		cf := cf
+		simCall(func() { r = parseVia(cf.Name, cf.Text, "string", nil, "ref") })
 		simrt.SeamsOn(false, false)
 		e := RefEntry{Accepted: r.accepted() && r.textOK}
 		if e.Accepted {
@@ -275,12 +277,14 @@ func c12Compare(t C12Task, r *parseResult, text string) (class, sig, detail stri
 	if hex64(hash64(r.text)) != ref.TextHash {
 		// Recompute the reference text in-process for the diagnostic only.
 		simrt.SeamsOn(false, false)
-		rr := parseVia(t.Target, text, "string", nil, "diag")
+		var rr *parseResult
+		simCall(func() { rr = parseVia(t.Target, text, "string", nil, "diag") })
 		return "text-differs", "String()", fmt.Sprintf("%s parsed via %s prints differently from the reference: %s", t.Target, t.Entry, firstDiff(r.text, rr.text))
 	}
 	if hex64(r.digestHash) != ref.DigestHash {
 		simrt.SeamsOn(false, false)
-		rr := parseVia(t.Target, text, "string", nil, "diag")
+		var rr *parseResult
+		simCall(func() { rr = parseVia(t.Target, text, "string", nil, "diag") })
 		return "digest-differs", "structure", fmt.Sprintf("%s parsed via %s: same text but a different object graph: %s", t.Target, t.Entry, firstDiff(r.digest, rr.digest))
 	}
 	return "", "", ""
@@ -412,12 +416,13 @@ func c12Run(sc *C12Scenario) *c12Outcome {
 	simrt.Load(sc.Tape.config())
 	simrt.SeamsOn(true, true)
 	for i, p := range sc.Prior {
-		doPrior(p, i)
+		i, p := i, p
+		simCall(func() { doPrior(p, i) })
 	}
 	results := make([]*parseResult, len(sc.Tasks))
 	if len(sc.Tasks) == 1 {
 		t := sc.Tasks[0]
-		results[0] = parseVia(t.Target, texts[0], t.Entry, t.Reader, "seq")
+		simCall(func() { results[0] = parseVia(t.Target, texts[0], t.Entry, t.Reader, "seq") })
 		out.stats = simrt.Snapshot()
 	} else {
 		fns := make([]func(), len(sc.Tasks))
@@ -462,7 +467,7 @@ func c12Run(sc *C12Scenario) *c12Outcome {
 	if sc.Canary != "" {
 		if tx, ok := corpusText(sc.Canary); ok {
 			canaryText = tx
-			canary = parseVia(sc.Canary, tx, "string", nil, "canary")
+			simCall(func() { canary = parseVia(sc.Canary, tx, "string", nil, "canary") })
 		}
 	}
 	simrt.SeamsOn(false, false)
